@@ -72,6 +72,7 @@ def tokenize(text):
 
 
 TYPE_ALIAS = {}     # generic parameter -> concrete type (from the spec)
+FLAGS = {}          # spec options, e.g. vec_u8_as_list, struct_fields
 OPAQUE = {}         # spec: {'type': LeanName, 'chains': {'a().b()': [rust type, field]}} for trait-object parameters
 EXTERN = {}         # struct name -> namespace of another generated file that defines it (and the functions it owns)
 INT_TYPES = {'u8': 8, 'u16': 16, 'u32': 32, 'u64': 64, 'usize': 64}
@@ -144,7 +145,7 @@ class P:
         if name in ('String', 'str'): return 'string'
         if name == 'Box' and args == ['string']: return 'string'
         if name == 'Vec':
-            if args and args[0] == 'u8': return 'bytes'
+            if args and args[0] == 'u8' and not FLAGS.get('vec_u8_as_list'): return 'bytes'
             if args and args[0] == 'string': return 'strings'
             return ('vec', args[0] if args else 'opaque')
         if name == 'Result': return ('result', args[0], args[1] if len(args) > 1 else 'opaque') if args else 'opaque'
@@ -636,8 +637,8 @@ class Tr:
             if ty[0] == 'option': return f'(Option {self.lean_ty(ty[1], self_ty)})'
             if ty[0] == 'range': return '(Nat × Nat)'
             if ty[0] == 'tuple': return '(' + ' × '.join(self.lean_ty(t, self_ty) for t in ty[1]) + ')'
-            if ty[0] == 'vec' and ty[1] in ('u8', ('struct', 'u8')): return 'Bytes'
-            if ty[0] == 'vec': return 'Bytes' if ty[1] == 'opaque' else f'(List {self.lean_ty(ty[1], self_ty)})'
+            if ty[0] == 'vec' and ty[1] in ('u8', ('struct', 'u8')) and not FLAGS.get('vec_u8_as_list'): return 'Bytes'
+            if ty[0] in ('vec', 'slice'): return 'Bytes' if ty[1] == 'opaque' else f'(List {self.lean_ty(ty[1], self_ty)})'
         raise TranslateError(f'type not supported: {ty}')
 
     def err_is_value(self, ty):
@@ -703,7 +704,10 @@ class Tr:
             if not (isinstance(t, tuple) and t[0] == 'struct'): raise TranslateError(f'field {e[2]} of non-struct {t}')
             sn = env['owner'] if t[1] == 'Self' else t[1]
             for f, ft in self.it.structs.get(sn, []):
-                if f == e[2]: return f'{s}.{self.fld(f)}', ft
+                if f == e[2]:
+                    if sn in FLAGS.get('struct_fields', {}) and f not in FLAGS['struct_fields'][sn]:
+                        raise TranslateError(f'field {sn}.{f} is outside the translated projection of the struct')
+                    return f'{s}.{self.fld(f)}', ft
             raise TranslateError(f'unknown field {sn}.{e[2]}')
         if k == 'tfield':
             s, t = self.ex(e[1], env)
@@ -726,6 +730,17 @@ class Tr:
         if k == 'macro':
             if e[1] == 'format':
                 return self.fmt_macro(e[2], env), 'string'
+            if e[1] == 'matches':
+                p = P(list(e[2]) + [('op', ')')])
+                scrut = p.expr(); p.expect(','); pat = p.pattern()
+                sx, st = self.ex(scrut, env)
+                def pat_val(pt):
+                    if pt[0] == 'ppath': return self.path(pt[1], env)[0]
+                    if pt[0] == 'pctor' and pt[1] == ['Some'] and len(pt[2]) == 1: return f'(some {pat_val(pt[2][0])})'
+                    if pt[0] == 'plit': return str(pt[1])
+                    raise TranslateError('matches! pattern')
+                alts = pat[1] if pat[0] == 'por' else [pat]
+                return '(' + ' || '.join(f'({sx} == {pat_val(a)})' for a in alts) + ')', 'bool'
             raise TranslateError(f'macro {e[1]}! in expression position')
         if k == 'array':
             parts = [self.ex(x, env, 'u8') for x in e[1]]
@@ -829,6 +844,10 @@ class Tr:
     def index(self, e, env):
         s, t = self.ex(e[1], env)
         idx = e[2]
+        if isinstance(t, tuple) and t[0] in ('vec', 'slice') and t[1] in INT_TYPES and idx[0] != 'range':
+            i, _ = self.ex(idx, env, 'usize')
+            self.notes.append('index into a Vec: out-of-range is a panic site of the source (model: PanicSite)')
+            return f'({s}.getD {i} 0)', t[1]
         if t != 'bytes': raise TranslateError(f'indexing {t}')
         if idx[0] == 'range':
             lo = '0' if idx[1] is None else self.ex(idx[1], env, 'usize')[0]
@@ -1016,6 +1035,21 @@ class Tr:
                 return f'({s}.{fn} (fun {pn} => {body}))', ('bytes' if name == 'take_while' else 'bool')
             if name == 'chunks_exact':
                 return f'(Rs.chunksExact {self.ex(args[0], env, "usize")[0]} {s})', 'chunks'
+        if isinstance(t, tuple) and t[0] in ('vec', 'slice'):
+            et = t[1]
+            if name in ('iter', 'into_iter', 'collect', 'collect_vec', 'as_slice', 'to_vec', 'copied', 'cloned'): return s, t
+            if name in ('len', 'count'): return f'({s}.length)', 'usize'
+            if name == 'is_empty': return f'({s}.isEmpty)', 'bool'
+            if name == 'contains':
+                a, _ = self.ex(args[0], env)
+                return f'({s}.contains {a})', 'bool'
+            if name == 'map':
+                cl = args[0]
+                if cl[0] != 'closure' or len(cl[1]) != 1: raise TranslateError('closure expected')
+                pn = cl[1][0][1]
+                env2 = self.fork(env); env2['vars'][pn] = (pn, et)
+                body, bt = self.ex(cl[2], env2)
+                return f'({s}.map (fun {pn} => {body}))', ('vec', bt)
         if t == 'chunks':
             if name == 'count': return f'({s}.length)', 'usize'
         if t in ('string', 'strings'):
@@ -1652,6 +1686,7 @@ def generate(spec, repo):
     TYPE_ALIAS.clear(); TYPE_ALIAS.update(spec.get('type_alias', {}))
     EXTERN.clear()
     OPAQUE.clear(); OPAQUE.update(spec.get('opaque', {}))
+    FLAGS.clear(); FLAGS.update(spec.get('flags', {}))
     for ns, names in spec.get('extern', {}).items():
         for n in names: EXTERN[n] = ns
     items = Items()
@@ -1709,8 +1744,18 @@ def generate(spec, repo):
             used_structs.append(sn)
     # a struct that has another struct as a field comes after it
     def sdeps(sn):
-        return [ft[1] for _, ft in items.structs.get(sn, []) if isinstance(ft, tuple) and ft[0] == 'struct'] + \
-               [ft[1][1] for _, ft in items.structs.get(sn, []) if isinstance(ft, tuple) and ft[0] == 'option' and isinstance(ft[1], tuple)]
+        out = []
+        def walk(t):
+            if isinstance(t, tuple):
+                if t[0] == 'struct': out.append(t[1])
+                elif t[0] in ('option', 'vec', 'slice', 'range'): walk(t[1])
+                elif t[0] == 'tuple':
+                    for x in t[1]: walk(x)
+                elif t[0] == 'result': walk(t[1]); walk(t[2])
+        fs = items.structs.get(sn, [])
+        if sn in FLAGS.get('struct_fields', {}): fs = [(f, ft) for f, ft in fs if f in FLAGS['struct_fields'][sn]]
+        for _, ft in fs: walk(ft)
+        return out
     changed = True
     while changed:
         changed = False
@@ -1744,6 +1789,8 @@ def generate(spec, repo):
             L.append('  deriving DecidableEq, Repr, Inhabited')
         else:
             fs = items.structs[sn]
+            if sn in FLAGS.get('struct_fields', {}):
+                fs = [(f, ft) for f, ft in fs if f in FLAGS['struct_fields'][sn]]
             if not fs:
                 L.append(f'structure {sn} where\n  deriving DecidableEq, Repr, Inhabited')
             else:
